@@ -9,8 +9,10 @@ import (
 	"encoding/json"
 	"fmt"
 	"math"
+	"math/rand"
 	"os"
 	"runtime"
+	"sort"
 	"strings"
 	"sync"
 	"sync/atomic"
@@ -35,6 +37,7 @@ type scen struct {
 	MaxWorkers int           `json:"max_workers"`
 	// PauseBeforeNear lets a burst finish and the grown pool go idle (not wind down) before "near" is issued
 	PauseBeforeNear time.Duration `json:"pause_before_near,omitempty"`
+	Trials          int           `json:"trials,omitempty"` // idleedge only
 }
 
 var elements = []string{"far", "near", "burst", "cancelhead", "idlegap"}
@@ -98,12 +101,207 @@ func scenarios(run *report.Run) []scen {
 			}
 		}
 	}
+	// calls landing at the very moment the last worker gives up for idleness (about two idle periods after its
+	// last callback): the queue invariant (pending>0 => a worker exists) is checked after every trial
+	for rep := 0; rep < run.Pick(4, 16); rep++ {
+		res = append(res, scen{Order: []string{"idleedge"}, Callers: 1 + rep%4, Idle: []time.Duration{300, 150, 600, 1000}[rep/4%4] * time.Microsecond, MaxWorkers: 1 + rep%3, Trials: run.Pick(2500, 10000)})
+	}
+	for rep := 0; rep < run.Pick(2, 8); rep++ {
+		res = append(res, scen{Order: []string{"idleconvoy"}, Callers: 1, Idle: []time.Duration{40, 80, 25, 60}[rep%4] * time.Millisecond, MaxWorkers: 1 + rep%3, Trials: run.Pick(4, 10)})
+	}
 	for _, mw := range []int{2, 10} {
 		for rep := 0; rep < run.Pick(3, 12); rep++ {
 			res = append(res, scen{Order: []string{"contended"}, Callers: 1 + rep%3, Idle: 20 * time.Millisecond, MaxWorkers: mw})
 		}
 	}
 	return res
+}
+
+// idleEdge: see scenarios().
+func idleEdge(sc scen) (fs []tmon.Finding, nFut int, stats map[string]int64, inconclusive string) {
+	stats = map[string]int64{}
+	timeout.VerifReset(sc.Idle, sc.MaxWorkers)
+	mon := tmon.New()
+	rng := rand.New(rand.NewSource(int64(sc.Callers)*7919 + int64(sc.Idle)))
+	started := func(fus []*tmon.Fut, limit time.Duration) bool {
+		t0 := time.Now()
+		for {
+			open := false
+			for _, f := range fus {
+				if f.Started() == 0 {
+					open = true
+				}
+			}
+			if !open {
+				return true
+			}
+			if time.Since(t0) > limit {
+				return false
+			}
+			runtime.Gosched()
+		}
+	}
+	// calibration: when, after its last callback, does the last worker actually leave? (observed through the
+	// hook; whatever the number of idle rounds is, the trials aim at the observed moment)
+	var offs []time.Duration
+	for i := 0; i < 40; i++ {
+		first := mon.Call(0, 0, false)
+		if !started([]*tmon.Fut{first}, lateBound+time.Second) {
+			break
+		}
+		fired := time.Now()
+		for {
+			if w, p := timeout.VerifState(); w == 0 && p == 0 {
+				offs = append(offs, time.Since(fired))
+				break
+			}
+			if time.Since(fired) > 10*time.Second {
+				return nil, len(mon.Futures()), stats, "idle-edge calibration: the worker did not leave within 10 s"
+			}
+		}
+	}
+	if len(offs) < 40 {
+		jf, _ := mon.Judge(lateBound)
+		return jf, len(mon.Futures()), stats, ""
+	}
+	sort.Slice(offs, func(i, j int) bool { return offs[i] < offs[j] })
+	lo, hi := offs[4]-80*time.Microsecond, offs[35]+10*time.Microsecond
+	stats["idle_edge_exit_offset_p10_us"], stats["idle_edge_exit_offset_p90_us"] = int64(offs[4]/time.Microsecond), int64(offs[35]/time.Microsecond)
+	for tr := 0; tr < sc.Trials; tr++ {
+		first := mon.Call(0, 0, false)
+		if !started([]*tmon.Fut{first}, lateBound+time.Second) {
+			break
+		}
+		fired := time.Now()
+		target := lo + time.Duration(rng.Int63n(int64(hi-lo)))
+		fus := make([]*tmon.Fut, sc.Callers)
+		var wg sync.WaitGroup
+		for c := 0; c < sc.Callers; c++ {
+			wg.Add(1)
+			go func(c int) {
+				defer wg.Done()
+				for time.Since(fired) < target {
+				}
+				fus[c] = mon.Call(0, 0, false)
+			}(c)
+		}
+		wg.Wait()
+		stats["idle_edge_trials"]++
+		if err := timeout.VerifCheckHeap(); err != nil {
+			fs = append(fs, tmon.Finding{Sig: "timer/heap-invariant", What: fmt.Sprintf("a Call landed while the last worker was leaving for idleness (idle timeout %v, trial %d): the queue invariant (pending>0 => a worker exists) is broken: %v", sc.Idle, tr, err)})
+			break
+		}
+		if !started(fus, lateBound+time.Second) {
+			break
+		}
+	}
+	if len(fs) > 0 {
+		// nothing would ever start the stranded futures: empty the queue so that the process can go on
+		timeout.VerifDrain()
+		return fs, len(mon.Futures()), stats, ""
+	}
+	final, lost := tmon.Drain(60 * time.Second)
+	if !final {
+		return nil, len(mon.Futures()), stats, "drain watchdog after idle-edge trials: " + lost
+	}
+	if lost != "" {
+		fs = append(fs, tmon.Finding{Sig: "timer/pending-without-worker", What: lost})
+	}
+	jf, worst := mon.Judge(lateBound)
+	fs = append(fs, jf...)
+	stats["worst_lateness_us"] = int64(worst / time.Microsecond)
+	return fs, len(mon.Futures()), stats, ""
+}
+
+// idleConvoy: a lock convoy at the moment the last worker gives up for idleness. The harness holds the package
+// lock (hook) while first a caller of Call and then the expiring worker queue up on it; the lock is released
+// with one barging re-lock, which puts the mutex into its FIFO hand-off mode (caller, worker, caller ...).
+// Afterwards the queue invariant must hold and the future must start.
+func idleConvoy(sc scen) (fs []tmon.Finding, nFut int, stats map[string]int64, inconclusive string) {
+	stats = map[string]int64{}
+	timeout.VerifReset(sc.Idle, sc.MaxWorkers)
+	mon := tmon.New()
+	waitStarted := func(f *tmon.Fut, limit time.Duration) bool {
+		t0 := time.Now()
+		for f.Started() == 0 {
+			if time.Since(t0) > limit {
+				return false
+			}
+			time.Sleep(200 * time.Microsecond)
+		}
+		return true
+	}
+	// calibration: the moment the last worker leaves after its last callback (observed through the hook)
+	var exit time.Duration
+	for i := 0; i < 3; i++ {
+		first := mon.Call(0, 0, false)
+		if !waitStarted(first, lateBound+time.Second) {
+			jf, _ := mon.Judge(lateBound)
+			return jf, len(mon.Futures()), stats, ""
+		}
+		fired := time.Now()
+		for {
+			if w, p := timeout.VerifState(); w == 0 && p == 0 {
+				break
+			}
+			if time.Since(fired) > 20*sc.Idle+10*time.Second {
+				return nil, len(mon.Futures()), stats, "idle-convoy calibration: the worker did not leave"
+			}
+			time.Sleep(200 * time.Microsecond)
+		}
+		if d := time.Since(fired); i == 0 || d < exit {
+			exit = d
+		}
+	}
+	stats["idle_convoy_exit_offset_ms"] = int64(exit / time.Millisecond)
+	margin := sc.Idle / 4
+	for tr := 0; tr < sc.Trials; tr++ {
+		first := mon.Call(0, 0, false)
+		if !waitStarted(first, lateBound+time.Second) {
+			break
+		}
+		fired := time.Now()
+		time.Sleep(time.Until(fired.Add(exit - margin)))
+		locked, release := make(chan struct{}), make(chan struct{})
+		holder := make(chan struct{})
+		go func() {
+			timeout.VerifWithLock(func() { close(locked); <-release })
+			// barge once: the woken waiter finds the lock taken again and turns the mutex to FIFO hand-off
+			timeout.VerifWithLock(func() { time.Sleep(3 * time.Millisecond) })
+			close(holder)
+		}()
+		<-locked
+		var fu *tmon.Fut
+		called := make(chan struct{})
+		go func() { fu = mon.Call(0, 0, false); close(called) }() // queues up on the lock
+		time.Sleep(time.Until(fired.Add(exit + margin)))          // by now the worker has woken up and queued behind the caller
+		close(release)
+		<-holder
+		<-called
+		stats["idle_convoy_trials"]++
+		if err := timeout.VerifCheckHeap(); err != nil {
+			fs = append(fs, tmon.Finding{Sig: "timer/heap-invariant", What: fmt.Sprintf("lock convoy while the last worker was leaving for idleness (idle timeout %v, trial %d: the harness held the package lock while a Call and then the expiring worker queued up on it): the queue invariant (pending>0 => a worker exists) is broken: %v", sc.Idle, tr, err)})
+			break
+		}
+		if !waitStarted(fu, lateBound+time.Second) {
+			break
+		}
+	}
+	if len(fs) > 0 {
+		timeout.VerifDrain() // nothing would ever start the stranded future
+		return fs, len(mon.Futures()), stats, ""
+	}
+	final, lost := tmon.Drain(60 * time.Second)
+	if !final {
+		return nil, len(mon.Futures()), stats, "drain watchdog after idle-convoy trials: " + lost
+	}
+	if lost != "" {
+		fs = append(fs, tmon.Finding{Sig: "timer/pending-without-worker", What: lost})
+	}
+	jf, worst := mon.Judge(lateBound)
+	fs = append(fs, jf...)
+	stats["worst_lateness_us"] = int64(worst / time.Microsecond)
+	return fs, len(mon.Futures()), stats, ""
 }
 
 // contendedWindDown: see scenarios().
@@ -187,6 +385,12 @@ func contendedWindDown(sc scen) (fs []tmon.Finding, nFut int, stats map[string]i
 func runScenario(sc scen) (fs []tmon.Finding, nFut int, stats map[string]int64, inconclusive string) {
 	if len(sc.Order) == 1 && sc.Order[0] == "contended" {
 		return contendedWindDown(sc)
+	}
+	if len(sc.Order) == 1 && sc.Order[0] == "idleconvoy" {
+		return idleConvoy(sc)
+	}
+	if len(sc.Order) == 1 && sc.Order[0] == "idleedge" {
+		return idleEdge(sc)
 	}
 	stats = map[string]int64{}
 	timeout.VerifReset(sc.Idle, sc.MaxWorkers)
